@@ -21,6 +21,8 @@ A program (the *case*) is a JSON value:
         | {'k': 'fileat', 'p': PATH, 's': TEXT-SOURCE}   file PATH/uK.txt = TEXT-SOURCE   (PATH argument of an instruction)
         | {'k': 'dirat', 'p': PATH}                      dir PATH/uK
         | {'k': 'nexists', 'p': PATH}                    exists ! PATH/uK              (assert phase only)
+        | {'k': 'stop'}                                  $ false      (fails when executed: FAIL in [assert], else
+                                                         HARD_ERROR; what follows is not executed - but [cleanup] is)
         | {'k': 'from', 'ch': 'exit-code'|'stdout', 'p': PROGRAM}   exit-code -from PROGRAM >= 0 | stdout -from PROGRAM
                                                          ! equals "<never>"            (assert phase only)
 
@@ -334,6 +336,8 @@ def item_refs(item):
         return _path_refs(item['p']) + _ts_refs(item['s'])
     if k in ('dirat', 'nexists'):
         return _path_refs(item['p'])
+    if k == 'stop':
+        return []
     raise ValueError('unknown item kind %r' % (k,))
 
 
@@ -519,6 +523,9 @@ class Outcome:
         self.soft = []  # value dependent validation that is not about symbols (INTEGER not an int, invalid REGEX, ...)
         self.table = {}  # name -> Entry (with .value for the data types) after the last instruction
         self.abs_files = {}  # absolute path -> text | UNKNOWN   (`file PATH = ...` with a PATH argument)
+        self.cleanup_cut = None  # see evaluate()
+        self.stop = None  # {'phase', 'index', 'ident'}: the instruction that fails when it is executed (`stop` item)
+        self.skipped_defs = []  # names whose definition is not executed because of that (they are defined all the same)
         self.sources = {}  # path relative to the home directory -> text: the files read by -contents-of
         self.unknown_env = False  # a variable whose name is not predicted was set
         self.abs_dirs = []  # absolute paths of the directories made by `dir PATH`
@@ -960,8 +967,9 @@ def _item_expr(item):
     return _ITEM_TYPE[k], item['s']
 
 
-def evaluate(case, roots, reading=None) -> Outcome:
-    """Values observed when an accepted program is executed.  roots: home act-home act tmp result cd here -> dir."""
+def evaluate(case, roots, reading=None, cleanup_cut=None) -> Outcome:
+    """Values observed when an accepted program is executed.  roots: home act-home act tmp result cd here -> dir.
+    cleanup_cut (defect model KF-C08-2 only): [cleanup] is given up at the item with this index."""
     reading = reading or DEFAULT_READING
     out = Outcome()
     table = {n: Entry(t, [], None, builtin=True) for n, t in BUILTIN_TYPES.items()}
@@ -978,10 +986,13 @@ def evaluate(case, roots, reading=None) -> Outcome:
                    ('EXACTLY_RESULT', 'result'), ('EXACTLY_TMP', 'tmp')):
         table[n_].root = r_
     out.table = table
+    out.cleanup_cut = cleanup_cut
     ev = _Evaluator(table, roots, out)
     act_stdin = []  # texts given by `stdin = TEXT-SOURCE` in setup
 
-    for phase, idx, item in usages(case):
+    state = {'stopped': None}
+
+    def step(phase, idx, item, skipped):
         if phase == 'act':
             ev.soft_scan('program', case['act'])
             extra = None
@@ -990,11 +1001,16 @@ def evaluate(case, roots, reading=None) -> Outcome:
             elif act_stdin:
                 extra = UNKNOWN  # more than one `stdin` instruction: which one counts is not said
             ev.run_program(ev.program_(case['act']), extra_stdin=extra)
-            continue
+            return
         k = item['k']
+        if k == 'stop':
+            if not skipped:
+                state['stopped'] = phase
+                out.stop = {'phase': phase, 'index': idx, 'ident': 'FAIL' if phase == 'assert' else 'HARD_ERROR'}
+            return
         if k == 'timeout':
             ev.soft_int(item['i'])
-            continue
+            return
         if k in ('fileat', 'dirat', 'nexists'):
             full = with_leaf(item['p'], use_name(phase, idx) + ('.txt' if k == 'fileat' else ''))
             if ev.root_(full) not in ACCEPTED_ROOTS[k]:
@@ -1007,7 +1023,7 @@ def evaluate(case, roots, reading=None) -> Outcome:
                     out.abs_files[where] = text
             elif k == 'dirat' and where is not UNKNOWN:
                 out.abs_dirs.append(where)
-            continue
+            return
         if k != 'def':
             ev.soft_scan(*_item_expr(item))
         if k == 'def':
@@ -1032,6 +1048,8 @@ def evaluate(case, roots, reading=None) -> Outcome:
                 ent.value = None
             ev.soft_scan(t, v)
             table[item['n']] = ent
+            if skipped:
+                out.skipped_defs.append(item['n'])
         elif k == 'file':
             out.files[use_name(phase, idx) + '.txt'] = ev.ts_(item['s'])
         elif k == 'dir':
@@ -1062,6 +1080,29 @@ def evaluate(case, roots, reading=None) -> Outcome:
             finally:
                 out.events, out.shell = saved
         # 'assert' items are wrapped in `constant true || ...`: "Operands are evaluated lazily" - nothing runs
+
+    # A symbol is a named constant: "Once defined, a symbol is available to all instructions following the definition" -
+    # also when the instructions between a failing instruction and [cleanup] are not executed.  Skipped instructions
+    # are interpreted all the same (values of the symbols, value-validated arguments) but leave no observation.
+    for phase, idx, item in usages(case):
+        stopped = state['stopped']
+        skipped = (stopped is not None and (phase != 'cleanup' or stopped == 'cleanup')
+                   or (cleanup_cut is not None and phase == 'cleanup' and idx >= cleanup_cut))
+        if not skipped:
+            step(phase, idx, item, False)
+            continue
+        saved = (out.events, out.shell, out.files, out.dirs, out.abs_files, out.abs_dirs, out.unknown_probes,
+                 out.unknown_env, dict(ev.env), list(act_stdin))
+        out.events, out.shell, out.files, out.dirs, out.abs_files, out.abs_dirs = {}, {}, {}, {}, {}, []
+        out.unknown_probes = set()
+        try:
+            step(phase, idx, item, True)
+        finally:
+            (out.events, out.shell, out.files, out.dirs, out.abs_files, out.abs_dirs, out.unknown_probes,
+             out.unknown_env, env_, stdin_) = saved
+            ev.env.clear()
+            ev.env.update(env_)
+            act_stdin[:] = stdin_
     for rel in out.sources:
         parts = rel.split('/')
         if (any(o != rel and o.startswith(rel + '/') for o in out.sources) or parts[0] in RESERVED_HOME_FILES
@@ -1099,3 +1140,35 @@ def path_free(name, table, seen=None) -> bool:
     if e.type == 'path':
         return False
     return all(path_free(r, table, seen) for r in e.refs if r in table)
+
+
+def cleanup_needs(case, table) -> set:
+    """Names of the symbols that the instructions of [cleanup] (definitions excluded) resolve when they are executed:
+    the referenced ones and, through them, the ones they are built from."""
+    todo = [name for it in case['items'].get('cleanup', []) if it['k'] != 'def' for name, _ctx in item_refs(it)]
+    seen = set()
+    while todo:
+        n = todo.pop()
+        if n in seen or n not in table:
+            continue
+        seen.add(n)
+        todo.extend(table[n].refs)
+    return seen
+
+
+def first_cleanup_item_needing(case, table, names):
+    """Index of the first instruction of [cleanup] (definitions excluded) that resolves one of `names`, or None."""
+    for i, it in enumerate(case['items'].get('cleanup', [])):
+        if it['k'] == 'def':
+            continue
+        todo = [name for name, _ctx in item_refs(it)]
+        seen = set()
+        while todo:
+            n = todo.pop()
+            if n in seen or n not in table:
+                continue
+            if n in names:
+                return i
+            seen.add(n)
+            todo.extend(table[n].refs)
+    return None
